@@ -527,6 +527,6 @@ void run_case(Rng& rng, std::uint64_t idx)
 
 } // namespace
 
-std::uint64_t vfh_num_cases(bool thorough) { return thorough ? 21000 : 630; }
+std::uint64_t vfh_num_cases(bool thorough) { return thorough ? 90000 : 630; }
 void vfh_run_case(std::uint64_t idx, Rng& rng) { run_case(rng, idx); }
 void vfh_selftest() {}
